@@ -77,6 +77,7 @@ type checkOpts struct {
 	seed     int
 	overlay  map[string][]byte
 	noEvidence bool
+	replayAlways bool
 	quiet    bool
 }
 
@@ -113,6 +114,7 @@ func cmdCheck(args []string) int {
 		}
 		o.overlay = ov
 		o.noEvidence = true
+		o.replayAlways = true
 	}
 	o.seed, _ = strconv.Atoi(envOr("VERIF_SEED", "0"))
 	out := runCheck(o)
@@ -274,6 +276,9 @@ func runCheck(o checkOpts) checkOutcome {
 	// violations
 	var lines []string
 	replayDir := filepath.Join(verifRoot(), "replay", o.property)
+	if o.noEvidence {
+		replayDir = filepath.Join(os.TempDir(), "govc-replay-out", o.property)
+	}
 	for _, r := range results {
 		for _, ob := range r.obligs {
 			if ob.kind == "cover" || ob.status == "unsat" {
@@ -287,8 +292,8 @@ func runCheck(o checkOpts) checkOutcome {
 			out.failed = append(out.failed, ob)
 			path := ""
 			reproduced := false
-			if !o.noEvidence {
-				path, reproduced = writeReplay(prog, r.eng, o, ob, replayDir)
+			if !o.noEvidence || o.replayAlways {
+				path, reproduced = writeReplay(prog, r, o, ob, replayDir)
 			}
 			suffix := ""
 			if !reproduced {
